@@ -137,6 +137,15 @@ def run(props=None, only=None, jobs=12):
             if only and only not in name:
                 continue
             work.append((tmp, base, "preserving", name, None, edits, props))
+        # behaviour-preserving refactorings kept as patches (too large for a string edit)
+        pres_dir = os.path.join(os.path.dirname(HERE), "preserving")
+        if os.path.isdir(pres_dir):
+            for sd in sorted(os.listdir(pres_dir)):
+                pp = os.path.join(pres_dir, sd, "patch.diff")
+                name = "PP-" + sd
+                if not os.path.exists(pp) or (only and only not in name):
+                    continue
+                work.append((tmp, base, "preserving", name, None, pp, props))
         with ThreadPoolExecutor(max_workers=jobs) as ex:
             out = list(ex.map(one, work))
     finally:
